@@ -146,6 +146,17 @@ CHECKS = {
         "Trusted: CPython ints; ref/calendars.py Hebrew month lengths; day<->date bijection (C01).",
         "DESIGN.md §2 C09",
     ),
+    "C20": (
+        "fault_enumeration",
+        "fault injection: enumerated truncations + generated k-byte corruptions biased to structural bytes found by an independent parser",
+        "Both real .nzd files are truncated at every prefix (thorough; structural prefixes and 1500 seed-chosen in "
+        "quick) and corrupted by 1-4 byte substitutions/insertions/deletions aimed at field ids, length varints, counts, "
+        "type/flag bytes, transition markers and pool indices; after each fault the stream is loaded, ids listed and the "
+        "affected (plus unaffected) zones fetched through for_id and DateTimeZoneCache: outcome must be success or "
+        "InvalidPyodaDataError; non-termination is decided by a deterministic call budget.",
+        "Trusted: ref/nzd.py structure map of the pristine files. Memory exhaustion is bounded by the watchdog + call budget rather than measured directly.",
+        "DESIGN.md §2 C20",
+    ),
 }
 
 NOT_YET = {}
